@@ -37,7 +37,7 @@ def main():
         if rc:
             print(sid, "patch does not apply:", out[:200]); continue
         try:
-            rc_b, out_b = sh(["python3", "/tmp/seed/baseline.py", WT])
+            rc_b, out_b = sh(["python3", os.path.join(HERE, "tools", "baseline.py"), WT])
             rc_u, out_u = sh(["/venv/bin/python", need[1], "/repo"], timeout=900, cwd="/tmp")
             rc_c, out_c = sh(["/venv/bin/python", need[1], WT], timeout=900, cwd="/tmp")
         except subprocess.TimeoutExpired:
